@@ -20,6 +20,10 @@ MODELS = {
     # LBF: reset states of 6 keys with one food item already marked eaten (so that agents can walk onto its cell)
     "lbf-6x2x2-grid-T3@eaten": ("lbf-6x2x2-grid-T3", "lbf"),
     "lbf-6x2x2-vec-T3@eaten": ("lbf-6x2x2-vec-T3", "lbf"),
+    # LBF: every placement of 2 agents and 1 food (x level combinations) on the 5x5 grid, one step, all 36 joint actions
+    "lbf-5x2x1-T3@pairs": ("lbf-5x2x1-T3", "lbf"),
+    # LBF: three agents on every ordered triple of cells of a 2x4 window (queues, three-way collisions), 216 joint actions
+    "lbf-6x3x2-grid-T2@triples": ("lbf-6x3x2-grid-T2", "lbf"),
 }
 
 
@@ -68,7 +72,14 @@ def build_roots(env: Any, model: str, key_seed: int = 0):
         return cat(parts), cat(tparts), descs, True
     s0, ts0 = jax.jit(env.reset)(jax.random.PRNGKey(key_seed))
     s0, ts0 = to_np(s0), to_np(ts0)
-    if fam == "pac_man":
+    if fam == "lbf":
+        import numpy as np
+
+        states, descs = ref.placement_states(env, s0, model.split("@")[1], boot.tier())
+        n = len(descs)
+        ts = jax.tree_util.tree_map(lambda x: np.repeat(x[None], n, axis=0), ts0)
+        stale = True
+    elif fam == "pac_man":
         states, descs = ref.corridor_states(env, s0)
         ts = ref.corridor_timesteps(env, states)
         stale = False
@@ -116,7 +127,7 @@ def explore(pid: str, model: str, tier: str, seed: int) -> Dict[str, Any]:
     plan.pop("max_states", None)
     plan.pop("time_budget_s", None)
     states, ts, descs, stale = build_roots(env, model)
-    depth = 1 if (not stale or model.startswith("rware-awk") or model.endswith("@pairs")) else 2
+    depth = 1 if (not stale or model.startswith("rware-awk") or model.endswith("@pairs") or model.endswith("@triples")) else 2
     if tier == "thorough" and fam == "pac_man":
         depth = 2
     ex = Explorer(env, model, pid, roots=(states, ts), root_desc=descs, monitors=monitors, max_depth=depth,
